@@ -62,8 +62,8 @@ impl C20Oracle {
                     let rec = f.exec(step);
                     if !rec.outcome.is_ok() {
                         return Verdict::Fail(format!(
-                            "after step {}: {} holds {} LP of pair{} (reserves {}, {}; supply {}); withdrawing {} meets the entitlement precondition but the call failed: {}",
-                            idx, holder, bal, p, r0, r1, s, a, rec.outcome.err_text()
+                            "{}: {} holds {} LP of pair{} (reserves {}, {}; supply {}); withdrawing {} meets the entitlement precondition but the call failed: {}",
+                            if idx == usize::MAX { "at the end of the history".to_string() } else { format!("after step {}", idx) }, holder, bal, p, r0, r1, s, a, rec.outcome.err_text()
                         ));
                     }
                     let mut cl = vec![];
